@@ -39,14 +39,18 @@ func RMinus(p, src Label) bool {
 		if p.Type == src.Type && src.Sub == "" {
 			return true
 		}
-		return IsIface(p.Type) && p.Type != src.Type && Implements(src.Type, p.Type)
+		// an interface-typed value vertex depends on the plain typed output of
+		// its type, which is linked to EVERY other typed output whose type
+		// implements the interface -- an implementer, a wider interface, or the
+		// same interface under another subtype (call.go, interface loop)
+		return IsIface(p.Type) && Implements(src.Type, p.Type)
 	case !pn && sn:
 		return p.Type == src.Type && (p.Sub == "" || p.Sub == src.Sub)
 	default:
 		if p.Type == src.Type && (p.Sub == src.Sub || p.Sub == "" || src.Sub == "") {
 			return true
 		}
-		return IsIface(p.Type) && p.Type != src.Type && Implements(src.Type, p.Type)
+		return IsIface(p.Type) && Implements(src.Type, p.Type)
 	}
 }
 
